@@ -98,6 +98,9 @@ pub struct SeederCfg {
     pub timed_haves: Vec<(u64, usize)>,
     /// keep the connection alive for ever: every so many ms repeat a Have for an advertised piece
     pub chatter_ms: Option<u64>,
+    /// answer the first two (full) blocks of a piece with the right bytes under each other's
+    /// offsets: in arrival order the payloads still concatenate to the true piece
+    pub mislabel: bool,
 }
 
 impl SeederCfg {
@@ -114,6 +117,7 @@ impl SeederCfg {
             corrupt: Corrupt::default(),
             disc: None,
             idle_close_ms: 30_000,
+            mislabel: false,
             leech: false,
             serve_while_choking: false,
             late_haves: vec![],
@@ -296,7 +300,11 @@ async fn seeder_task(cfg: SeederCfg, mut io: PeerIo) {
                                 return;
                             }
                         }
-                        if !io.send(&Msg::Piece(i, b, data)).await { return; }
+                        let label = if cfg.mislabel && l == 16384 && (b == 0 || b == 16384) && p.len() >= 32768 {
+                            io.log.note(&io.addr, format!("corrupt: block ({},{}) sent under offset {}", i, b, 16384 - b));
+                            16384 - b
+                        } else { b };
+                        if !io.send(&Msg::Piece(i, label, data)).await { return; }
                         set.insert(b);
                     }
                     served += 1;
